@@ -8,6 +8,9 @@
  * EXPECT-FAIL: TAB10 decode_patch_operation
  * EXPECT-FAIL: TAB10 apply_patch
  * EXPECT-FAIL: TAB12 apply_patch
+ * EXPECT-FAIL: MRG1 merge_patch
+ * EXPECT-FAIL: MRG2 merge_patch
+ * EXPECT-FAIL: MRG3 merge_patch
  */
 #include "cJSON.h"
 #include <string.h>
@@ -265,3 +268,22 @@ int utils_bad_use_all(cJSON *o, unsigned char *b, char *c)
     bad_OUT5_gap(b, b); bad_OUT5_skip_two(b, b); good_copy(b, b); good_copy_postinc(b, b); bad_OUT6_overtake(c); good_inplace(c);
     return 0;
 }
+
+/* MRG: merge patch application that (1) copies an object patch member verbatim when the target member is no object,
+ * (2) sets a member although the patch value is null, (3) adds members to a target it never made an object */
+static cJSON *merge_patch(cJSON *target, const cJSON * const patch)
+{
+    const cJSON *patch_child = NULL;
+    if (!cJSON_IsObject(patch)) { cJSON_Delete(target); return cJSON_Duplicate(patch, 1); }
+    for (patch_child = patch->child; patch_child != NULL; patch_child = patch_child->next)
+    {
+        cJSON *member = cJSON_GetObjectItemCaseSensitive(target, patch_child->string);
+        if (cJSON_IsNull(patch_child)) { cJSON_DeleteItemFromObjectCaseSensitive(target, patch_child->string); }
+        if (cJSON_IsObject(patch_child) && cJSON_IsObject(member)) { (void)merge_patch(member, patch_child); continue; }
+        cJSON_DeleteItemFromObjectCaseSensitive(target, patch_child->string);
+        cJSON_AddItemToObject(target, patch_child->string, cJSON_Duplicate(patch_child, 1));
+    }
+    return target;
+}
+CJSON_PUBLIC(cJSON *) cJSONUtils_MergePatch(cJSON *target, const cJSON * const patch);
+CJSON_PUBLIC(cJSON *) cJSONUtils_MergePatch(cJSON *target, const cJSON * const patch) { return merge_patch(target, patch); }
